@@ -135,7 +135,7 @@ func runUnit(w *world.World, u unit, disk map[string][]byte, faults map[string]s
 	if u.xtest || u.testVar {
 		outID = fmt.Sprintf("%s [%s.test]", pkgPath, p.Path)
 	}
-	for _, f := range p.Files {
+	for _, f := range GoListOrder(p) {
 		isExt := f.Name == world.ExtTestFile
 		if u.xtest != isExt || (strings.HasSuffix(f.Name, "_test.go") && !u.testVar && !u.xtest) {
 			continue
